@@ -23,6 +23,7 @@ def main():
     ap.add_argument("--selftest")
     ap.add_argument("--n", type=int, default=60)
     ap.add_argument("--jit", choices=["on", "off"], default=None)
+    ap.add_argument("--debug-index", type=int, default=None)
     a = ap.parse_args()
     if a.zygote:
         from sim import engine
@@ -44,6 +45,14 @@ def main():
         return selftest.main(a.selftest, a.property, a.n, seed)
     if not a.property:
         ap.error("--property required")
+    if a.debug_index is not None:
+        import subprocess
+
+        z = engine.spawn_zygote({"property": a.property, "mode": "debug", "tier": a.tier, "base_seed": seed, "index": a.debug_index, "workers": 1}, a.jit != "off")
+        z["proc"].wait()
+        print(open(z["log"]).read())
+        engine.cleanup_jobfiles(z)
+        return 0
     tier = a.tier if a.tier in ("quick", "thorough") else "quick"
     return engine.run_check(a.property, tier, seed, only_jit=a.jit)
 
